@@ -115,11 +115,17 @@ def build(E):
         return ctx.alloc(RULE, {"prefix": VStr(z3.Select(prefix_arr, i)), "require_cert": VBool(z3.Select(req_arr, i)),
                                 "allowed_fingerprints": allowed, "g_idx": VInt(i)})
 
+    fp_nonempty = z3.Function("fp_allow_list_nonempty", I, B)
+
     def fpset_contains(ctx, st, item):
         if not isinstance(item, VStr):
             raise Unsupported("fingerprint membership with non-str")
-        return fp_member(ctx.getf(st, "idx").z, item.z)
+        i = ctx.getf(st, "idx").z
+        ctx.assume(z3.Implies(fp_member(i, item.z), fp_nonempty(i)))      # a member makes the list non-empty
+        return fp_member(i, item.z)
     M[("contains", "model:fpset")] = fpset_contains
+    # an allow-list may be EMPTY (and then falsy in Python): "an empty list admits nobody" must not be lost to truthiness tests
+    M[("bool", "model:fpset")] = lambda ctx, st: fp_nonempty(ctx.getf(st, "idx").z)
 
     def mk_auth(ctx):
         ctx.assume(n_rules >= 0)
